@@ -67,8 +67,9 @@ def gen_case(rng, idx, start_method="fork"):
     act_kind = rng.choice(["box", "discrete", "multidiscrete", "multibinary", "box_asym"])
     n = rng.randint(1, 3)
     img = obs_kind in ("image_hwc", "image_chw", "dict")
-    scripts = [se.gen_script(rng, n_episodes=rng.randint(1, 4), max_len=5, tag_base=(i * 50 if img else i * 1000), tag_cap=255 if img else se.MAXTAG - 1)
-               for i in range(n)]
+    # info / reset_info tag -1 = the env returns an EMPTY dict (falsy)
+    scripts = [se.gen_script(rng, n_episodes=rng.randint(1, 4), max_len=5, tag_base=(i * 50 if img else i * 1000), tag_cap=255 if img else se.MAXTAG - 1,
+                             p_empty_info=rng.choice([0.0, 0.3, 0.5])) for i in range(n)]
     calls = []
     if rng.random() < 0.5:
         calls.append(["seed", rng.randint(0, 1000)])
@@ -164,18 +165,21 @@ def do_call(venv, case, call):
         obs, rews, dones, infos = venv.step(acts)
         return {"obs": obs, "rews": rews, "dones": dones, "infos": infos, "reset_infos": venv.reset_infos}
     if call[0] == "seed":
-        return {"ret": venv.seed(call[1])}
-    if call[0] == "set_options":
-        return {"ret": venv.set_options([c01.opt_dict(o) for o in call[1]])}
-    if call[0] == "get_attr":
-        return {"ret": venv.get_attr("attr_value", indices=call[1])}
-    if call[0] == "set_attr":
-        return {"ret": venv.set_attr("attr_value", call[1], indices=call[2])}
-    if call[0] == "env_method":
-        return {"ret": venv.env_method("echo", call[1], indices=call[2])}
-    if call[0] == "is_wrapped":
-        return {"ret": venv.env_is_wrapped(wrapper_class(), indices=call[1])}
-    raise ValueError(call)
+        ret = venv.seed(call[1])
+    elif call[0] == "set_options":
+        ret = venv.set_options([c01.opt_dict(o) for o in call[1]])
+    elif call[0] == "get_attr":
+        ret = venv.get_attr("attr_value", indices=call[1])
+    elif call[0] == "set_attr":
+        ret = venv.set_attr("attr_value", call[1], indices=call[2])
+    elif call[0] == "env_method":
+        ret = venv.env_method("echo", call[1], indices=call[2])
+    elif call[0] == "is_wrapped":
+        ret = venv.env_is_wrapped(wrapper_class(), indices=call[1])
+    else:
+        raise ValueError(call)
+    # reset_infos is observable state: compared after EVERY call
+    return {"ret": ret, "reset_infos": venv.reset_infos}
 
 
 def same(a, b, path=""):
@@ -223,7 +227,8 @@ def compare_call(call, rd, rs):
         d = same(rd["obs"], rs["obs"], "obs")
         if d:
             probs.append((f"{call[0]}-observations-differ", d))
-        d = same(rd["reset_infos"], rs["reset_infos"], "reset_infos")
+    if "reset_infos" in rd or "reset_infos" in rs:
+        d = same(rd.get("reset_infos"), rs.get("reset_infos"), "reset_infos")
         if d:
             probs.append((f"{call[0]}-reset-infos-differ", d))
     if call[0] == "step":
@@ -285,7 +290,7 @@ def decode_call(case, venv, call, res):
 
     n = case["n"]
     space = venv.observation_space
-    rinfos = [(d.get("tag") if isinstance(d, dict) and d else None) for d in res.get("reset_infos", [])]
+    rinfos = [(d.get("tag", -1) if isinstance(d, dict) else None) for d in res.get("reset_infos", [])]   # {} decodes to -1
     try:
         if call[0] == "reset":
             tags = c01._dec_batch(space, res["obs"], n)
@@ -297,7 +302,7 @@ def decode_call(case, venv, call, res):
                 info = res["infos"][i]
                 r = float(res["rews"][i]) * 4.0
                 term = c01._dec(space, info["terminal_observation"]) if "terminal_observation" in info else None
-                out.append([i, ["ResStep", [tags[i], int(r) if r == int(r) else r, bool(res["dones"][i]), info.get("tag"), info.get("TimeLimit.truncated"), term], rinfos[i]]])
+                out.append([i, ["ResStep", [tags[i], int(r) if r == int(r) else r, bool(res["dones"][i]), info.get("tag", -1), info.get("TimeLimit.truncated"), term], rinfos[i]]])
             return out
         if call[0] == "get_attr":
             return [[i, ["ResAttr", v]] for i, v in zip(targets_of(call[1], n), res["ret"])]
@@ -355,6 +360,12 @@ def _opt(x):
     return x[1] if isinstance(x, tuple) and x and x[0] == "Some" else None
 
 
+def _ri(x):
+    """None (never reset) and Some (-1) (the env returned {}) are both the empty dict"""
+    v = _opt(x)
+    return -1 if v is None else v
+
+
 def model_log(val):
     out = []
     for i, r in val:
@@ -362,9 +373,9 @@ def model_log(val):
             out.append([i, ["ResNone"]])
         elif r[0] == "ResStep":
             o = r[1]
-            out.append([i, ["ResStep", [o[0], o[1], o[2], o[3], o[4], _opt(o[5])], _opt(r[2])]])
+            out.append([i, ["ResStep", [o[0], o[1], o[2], o[3], o[4], _opt(o[5])], _ri(r[2])]])
         elif r[0] == "ResReset":
-            out.append([i, ["ResReset", r[1], _opt(r[2])]])
+            out.append([i, ["ResReset", r[1], _ri(r[2])]])
         elif r[0] == "ResAttr":
             out.append([i, ["ResAttr", r[1]]])
         elif r[0] == "ResMethod":
